@@ -21,7 +21,12 @@ template <typename T>
     } else if constexpr (sizeof(T) == sizeof(etl::uint64_t)) {
         return (etl::bit_cast<etl::uint64_t>(arg) >> 63U) != 0U;
     } else {
+#if __has_builtin(__builtin_copysignl)
+        // long double: the comparison misses -0.0 and negative NaNs; copysign is usable in constant expressions
+        return __builtin_copysignl(1.0L, static_cast<long double>(arg)) < 0.0L;
+#else
         return arg < T(0);
+#endif
     }
 }
 
